@@ -32,7 +32,7 @@ namespace Kdf.Model.Attr
 inductive Ty | nil | dir | num | addr | str | bmp | blob
   deriving DecidableEq, Repr, Inhabited
 
-inductive Hook | none | vmciRaw | vmciLine | numFiles | ostype
+inductive Hook | none | vmciRaw | vmciLine | numFiles | ostype | utsRelease
   deriving DecidableEq, Repr, Inhabited
 
 inductive Status | ok | system | notimpl | nodata | invalid | nokey
@@ -459,6 +459,77 @@ def numFilesPre (h : HashFn) (st : St) (dict : Nat) (attr : Node) (n : Nat) (cur
       (victims.foldl (fun s c => dealloc s c.id) st, .ok)
     else (st, .ok)
 
+/-- The roll-back of num_files_pre_hook after a failed allocation (and its
+    shrinking branch): every slot directory `file.set.<N>` with `N ≥ keep` is
+    deallocated with everything below it. -/
+def numFilesRollback (st : St) (parent keep : Nat) : St :=
+  ((children st.nodes parent).filter (fun c => c.ty == .dir && c.fidx ≥ keep)).foldl
+    (fun s c => dealloc s c.id) st
+
+/-- The slot of num_files_pre_hook in which an allocation fails.  `stage` 0:
+    the directory cannot be created (nothing is added), 1: the directory exists
+    but its `fd` cannot be allocated, 2: directory and `fd` exist, `name`
+    cannot be allocated. -/
+def numFilesPartial (h : HashFn) (st : St) (dict parent i stage : Nat) : St :=
+  if stage == 0 then st
+  else match createPath h st dict parent (toString i) .dir .none i with
+    | .done s1 d =>
+      if stage == 1 then s1 else (newAttr h s1 dict (some d) "fd" .num (some 10200) .none).1
+    | .refused => st
+
+/-- num_files_pre_hook when an allocation fails in the new slot number
+    `cur + slot` (`slot` complete slots have been created before it): the
+    complete slots and the partial one are removed again, the status is
+    `system` and the caller leaves the number as it was.  When the failing
+    slot is not reached (`cur + slot ≥ n`) this is the plain hook. -/
+def numFilesPreFail (h : HashFn) (st : St) (dict : Nat) (attr : Node) (n cur slot stage : Nat) : St × Status :=
+  match attr.parent with
+  | none => (st, .ok)
+  | some parent =>
+    if cur + slot < n then
+      let s1 := (numFilesPre h st dict attr (cur + slot) cur).1
+      let s2 := numFilesPartial h s1 dict parent (cur + slot) stage
+      (numFilesRollback s2 parent cur, .system)
+    else numFilesPre h st dict attr n cur
+
+/-! #### a derived attribute: linux.version_code follows linux.uts.release -/
+
+def takeNum (cs : List Char) : Option (Nat × List Char) :=
+  let ds := cs.takeWhile Char.isDigit
+  if ds.isEmpty then none
+  else some (ds.foldl (fun a c => a * 10 + (c.toNat - 48)) 0, cs.dropWhile Char.isDigit)
+
+/-- linux_ver_revalidate: KERNEL_VERSION(a, b, c) of a release string
+    `a[.b[.c[anything]]]` (the macro caps `c` at 255); `none` = "Invalid kernel version". -/
+def kernelVersion (rel : String) : Option Nat :=
+  match takeNum rel.toList with
+  | none => none
+  | some (a, []) => some (a * 65536)
+  | some (a, '.' :: r1) =>
+    match takeNum r1 with
+    | none => none
+    | some (b, []) => some (a * 65536 + b * 256)
+    | some (b, '.' :: r2) =>
+      match takeNum r2 with
+      | none => none
+      | some (c, _) => some (a * 65536 + b * 256 + min c 255)
+    | some _ => none
+  | some _ => none
+
+/-- linux_ver_post_hook + linux_ver_revalidate.  The implementation stores a
+    placeholder marked invalid and every getter (by path, by reference,
+    through an iterator position) revalidates before it answers; the model
+    stores what they all must answer.  (A release that does not parse makes
+    the getters fail in the implementation; the model keeps 0 — such strings
+    are not generated.) -/
+def utsReleasePost (st : St) (rel : Node) (val : String) : St :=
+  match rel.parent.bind st.get with
+  | none => st
+  | some uts =>
+    match uts.parent.bind (fun l => findChildKey st l "version_code") with
+    | none => st
+    | some vc => setPlain st vc.id false ("num:" ++ toString ((kernelVersion (tokStr val)).getD 0))
+
 def numOfTok (tok : String) : Nat :=
   match tok.toList with
   | 'n' :: 'u' :: 'm' :: ':' :: ds => (parseDigits 10 ds 0).getD 0
@@ -501,6 +572,7 @@ def setHooked (h : HashFn) (st : St) (dict : Nat) (i : Nat) (persist : Bool) (va
           match n.parent with
           | none => (st2, .ok)
           | some vdir => vmciParse h dict vdir (deallocVmci st2 vdir) (vmciRows blobText)
+        | .utsRelease => (utsReleasePost st2 n val, .ok)
         | .vmciLine =>
           -- a line attribute set directly by the application
           match linesAnc st2 st2.next i with
